@@ -221,7 +221,7 @@ def parallel_map(fn, items, nproc=None, chunksize=1):
         return pool.map(fn, items, chunksize=chunksize)
 
 
-def stream(small_fn, small_jobs, wide_fn, wide_jobs, tier, step=200, chunksize=2):
+def stream(small_fn, small_jobs, wide_fn, wide_jobs, tier, step=200, chunksize=2, extra=None):
     """quick tier: one list; thorough tier: a generator of chunks (execute a slice of the jobs, hand the observations to the
     judge, forget them) so that memory stays bounded however large the small world is"""
     if tier == 'quick':
@@ -230,11 +230,11 @@ def stream(small_fn, small_jobs, wide_fn, wide_jobs, tier, step=200, chunksize=2
             obs += part
         for part in parallel_map(wide_fn, wide_jobs):
             obs += part
-        return obs
-    return _gen(small_fn, small_jobs, wide_fn, wide_jobs, step, chunksize)
+        return obs + (extra or [])
+    return _gen(small_fn, small_jobs, wide_fn, wide_jobs, step, chunksize, extra)
 
 
-def _gen(small_fn, small_jobs, wide_fn, wide_jobs, step, chunksize):
+def _gen(small_fn, small_jobs, wide_fn, wide_jobs, step, chunksize, extra=None):
     for k in range(0, len(small_jobs), step):
         obs = []
         for part in parallel_map(small_fn, small_jobs[k:k + step], chunksize=chunksize):
@@ -245,3 +245,5 @@ def _gen(small_fn, small_jobs, wide_fn, wide_jobs, step, chunksize):
         for part in parallel_map(wide_fn, wide_jobs[k:k + 4]):
             obs += part
         yield obs
+    if extra:
+        yield extra
